@@ -18,6 +18,22 @@ T0 = datetime(2024, 1, 1, tzinfo=timezone.utc)
 METER = 7
 
 
+async def _drain(registry, name, rx):
+    """Everything buffered in `rx`, without timers: close the channel, then read until the receiver reports the end.
+    (Broadcast senders put messages into the receivers' buffers synchronously, so after the loop iterations granted
+    above nothing is in flight; a wall-clock timeout here would make the verdict depend on machine load.)"""
+    from frequenz.channels import ReceiverStoppedError
+    from frequenz.quantities import Quantity
+    from frequenz.sdk.timeseries import Sample
+    await registry.get_or_create(Sample[Quantity], name).close()
+    got = []
+    while True:
+        try:
+            got.append(await rx.receive())
+        except ReceiverStoppedError:
+            return got
+
+
 async def scenario(events, yields):
     """events: list of ('msg', k) | ('sub', namespace, metric_name, component_id).  Returns a failure text or None."""
     from frequenz.channels import Broadcast
@@ -80,12 +96,7 @@ async def scenario(events, yields):
             await asyncio.sleep(0)
         # every subscribed stream: exactly the messages sent after its subscription, once each, in order.
         for name, (rx, attr, first) in receivers.items():
-            got = []
-            while True:
-                try:
-                    got.append(await asyncio.wait_for(rx.receive(), timeout=0.002))
-                except (asyncio.TimeoutError, Exception):  # pylint: disable=broad-except
-                    break
+            got = await _drain(registry, name, rx)
             stamps = [int((s.timestamp - T0).total_seconds()) for s in got]
             base = 100.0 if attr == "active_power" else 200.0
             vals_ok = all(s.value is not None and abs(s.value.base_value - (base + k)) < 1e-9 for s, k in zip(got, stamps))
@@ -170,12 +181,7 @@ async def actor_scenario(events, yields):
         for _ in range(60):
             await asyncio.sleep(0)
         for name, (rx, metric, cid, first) in receivers.items():
-            got = []
-            while True:
-                try:
-                    got.append(await asyncio.wait_for(rx.receive(), timeout=0.002))
-                except (asyncio.TimeoutError, Exception):  # pylint: disable=broad-except
-                    break
+            got = await _drain(registry, name, rx)
             stamps = [int((s.timestamp - T0).total_seconds()) for s in got]
             base = metric_attr[metric][1] * cid
             vals_ok = all(s.value is not None and abs(s.value.base_value - (base + k)) < 1e-9 for s, k in zip(got, stamps))
